@@ -2,6 +2,7 @@
 //
 // Protocol (one history = one OKL source file with many @kernels):
 //   FILE <hexpath>            the .okl file written by the plugin
+//   MODE <Serial|OpenMP>      device used for the following builds (default Serial)
 //   FLAGS <hex> | COMPILER <hex>   kernel properties compiler_flags / compiler
 //   BUILD <kname> fresh       remove this source's cache directory (if the harness has seen it), then
 //                             device.buildKernel(): the parser produces the metadata          ("fresh")
@@ -72,6 +73,7 @@ static std::string classify(const std::string &msg) {
 static void reset() {
   cur = occa::kernel();
   mems.clear();
+  if (dev.mode() != "Serial") dev = occa::device({{"mode", "Serial"}});
   file = flags = compiler = cacheDirOfFile = "";
 }
 
@@ -80,6 +82,11 @@ static std::string step(const std::vector<std::string> &t) {
   std::string s;
   try {
     if (t[0] == "FILE" && t.size() == 2 && hp::unhex(t[1], s)) { file = s; cacheDirOfFile = ""; return "ok"; }
+    if (t[0] == "MODE" && t.size() == 2) {          // Serial (default) or OpenMP
+      cur = occa::kernel(); mems.clear();
+      dev = occa::device({{"mode", t[1]}});
+      return std::string("mode ") + dev.mode();
+    }
     if (t[0] == "FLAGS" && t.size() == 2 && hp::unhex(t[1], s)) { flags = s; return "ok"; }
     if (t[0] == "COMPILER" && t.size() == 2 && hp::unhex(t[1], s)) { compiler = s; return "ok"; }
     if (t[0] == "BUILD" && t.size() == 3) {
